@@ -61,6 +61,22 @@ def trace_self(b, pl, D, depth=0):
     return None if base is None else base + fields
 
 
+def copy_of_param(b, op, D, param, depth=0):
+    """is the operand an unmodified copy of parameter `param`?"""
+    if op["k"] not in ("copy", "move") or op["pl"]["p"]:
+        return False
+    l = op["pl"]["l"]
+    if l == param:
+        return True
+    ds = D.get(l, [])
+    if len(ds) != 1 or depth > 10 or ds[0][0] != "st":
+        return False
+    rv = ds[0][2]["rv"]
+    if rv["k"] in ("use", "cast") and rv.get("ops"):
+        return copy_of_param(b, rv["ops"][0], D, param, depth + 1)
+    return False
+
+
 def ordered_sites(b, names, trait):
     """call sites (block, term) of the trait's methods in reverse postorder; second value False when two of them are
     not ordered by dominance (a conditional write / read)."""
@@ -248,6 +264,20 @@ def check_family(facts, adt):
     okz = sorted(x or "?" for x in Z) == sorted(W)
     res.append((okz, "size", "serialized_size sums exactly the written fields" if okz else
                 "serialized_size sums %s but serialize_with_mode writes %s" % (sorted(x or "?" for x in Z), sorted(W))))
+    # (v) modes: every field is written, sized and read in the caller's compression mode
+    bad_mode = []
+    for (i, t), fld in zip(wsites, W):
+        if _name(t) != "serialize_with_mode" or len(t["args"]) < 3 or not copy_of_param(ser, t["args"][2], Ds, 3):
+            bad_mode.append("%s is written with %s" % (fld, _name(t) if _name(t) != "serialize_with_mode" else "another mode than the caller's"))
+    for i, t in size.calls():
+        if _name(t) in SIZE and t.get("callee_trait") == SER and not size.blocks[i]["cleanup"]:
+            if _name(t) != "serialized_size" or len(t["args"]) < 2 or not copy_of_param(size, t["args"][1], Dz, 2):
+                bad_mode.append("a size is taken with %s" % (_name(t) if _name(t) != "serialized_size" else "another mode than the caller's"))
+    for (i, t), fld in zip(rsites, R):
+        if _name(t) != "deserialize_with_mode" or len(t["args"]) < 3 or not copy_of_param(de, t["args"][1], Dd, 2):
+            bad_mode.append("%s is read with %s" % (fld, _name(t) if _name(t) != "deserialize_with_mode" else "another mode than the caller's"))
+    res.append((not bad_mode, "modes", "every field is written, sized and read in the caller's compression mode" if not bad_mode else
+                "%s: size, bytes written and bytes read can disagree for one of the two modes" % bad_mode[0]))
     # (iv) rebuilt operands
     agg = aggs[0]
     bad = []
